@@ -22,6 +22,14 @@
 (*                  readBuf the loop goes round and reads again, forever (ghost devSpin)       *)
 (*   DevNoUnblock - when g2 ends nothing wakes g1, which stays in udpConn.Read (ghost          *)
 (*                  devBlocked)                                                                *)
+(* and one deviation that is NOT in the code, kept as the model of a plausible wrong            *)
+(* "optimisation" (seeded fault C12/m2):                                                         *)
+(*   DevAliasFlush - the flush ticker takes batchBuf[:batchPos] and resets batchPos under       *)
+(*                  batchMu but performs the tunnel Write after Unlock: the slice aliases the   *)
+(*                  shared buffer, an append during the (slow) write corrupts the bytes in        *)
+(*                  flight (ghost devAlias).  Relay_udp_alias.cfg MUST fail with UEncoded.        *)
+(* A tunnel Write and a UDP socket write are two steps each (start / ...Done): the write can be  *)
+(* slow, everything that is not excluded by batchMu may happen in between.                        *)
 (* Relay_udp.cfg (default) describes the patched code (both FALSE) and checks <>returned          *)
 (* strictly; Relay_udp_seeded.cfg (both TRUE = the code as found) checks                          *)
 (* <>(returned \/ devSpin \/ devBlocked); Relay_udp_lasso.cfg (both TRUE, strict property)        *)
@@ -44,7 +52,7 @@ CONSTANTS
   BatchSize,     \* pendingPackets capacity that forces a flush (32 in the code)
   BatchBuf,      \* batchBufSize of the batching writer (256 KiB in the code; scaled to model sizes)
   High,          \* refill threshold of readBuf (256 KiB in the code): larger than any modelled stream
-  DevSpin, DevNoUnblock,
+  DevSpin, DevNoUnblock, DevAliasFlush,
   \* ---- generation
   Emit           \* TRUE: print behaviours ("BEH {json}")
 
@@ -62,9 +70,11 @@ VARIABLES
   \* (ii)
   par,     \* behaviour parameters [t, u, cut, how, chunk, pace]
   tpos,    \* bytes of the encoded stream handed to g2 so far
-  g2,      \* [pc, buf, processed, pending, rerr, ended]
+  g2,      \* [pc, buf, processed, pending, rerr, ended, cont]  pending = <<offset, length>> references into buf (zero copy)
   udpGot,  \* datagrams written to the UDP socket, in order
-  g1,      \* [pc, batch, dg, serr]
+  g1,      \* [pc, mem, pos, dg, serr]  mem = bytes of batchBuf, pos = batchPos
+  lock,    \* batchMu: "free" | "g1" | "timer"
+  tw,      \* the tunnel Write in progress: [by, n, cont]  (by = "none": no write in progress)
   usent,   \* datagrams the UDP peer has sent so far
   upos,    \* datagrams g1 has read so far
   tunGot,  \* bytes written to the tunnel, in order
@@ -72,10 +82,10 @@ VARIABLES
   sockClosed, \* UDP socket closed (reads on it fail)
   tunHalfClosed,
   umain,   \* "wait" | "returned"
-  devSpin, devBlocked
+  devSpin, devBlocked, devAlias
 
 bvars == <<cw, ep, cp, bmain, rclosed, bhist>>
-uvars == <<par, tpos, g2, udpGot, g1, usent, upos, tunGot, timerOn, sockClosed, tunHalfClosed, umain, devSpin, devBlocked>>
+uvars == <<par, tpos, g2, udpGot, g1, lock, tw, usent, upos, tunGot, timerOn, sockClosed, tunHalfClosed, umain, devSpin, devBlocked, devAlias>>
 vars  == <<bvars, uvars>>
 bview == <<cw, ep, cp, bmain, rclosed, uvars>>   \* VIEW of the generation cfg: everything but bhist
 
@@ -221,26 +231,27 @@ UNone == {<<>>}
 
 Stream == Enc(par.t)
 
-UIdle == /\ par = [t |-> <<>>, u |-> <<>>, cut |-> 0, how |-> "eof", chunk |-> 0, pace |-> "burst"]
-         /\ tpos = 0
-         /\ g2 = [pc |-> "read", buf |-> <<>>, processed |-> 0, pending |-> <<>>, rerr |-> "none", ended |-> FALSE]
+G2Init == [pc |-> "read", buf |-> <<>>, processed |-> 0, pending |-> <<>>, rerr |-> "none", ended |-> FALSE, cont |-> "none"]
+G1Init == [pc |-> "read", mem |-> <<>>, pos |-> 0, dg |-> 0, serr |-> "none"]
+NoWrite == [by |-> "none", n |-> 0, cont |-> "none"]
+
+URest == /\ tpos = 0
+         /\ g2 = G2Init
          /\ udpGot = <<>>
-         /\ g1 = [pc |-> "read", batch |-> <<>>, dg |-> 0, serr |-> "none"]
+         /\ g1 = G1Init
+         /\ lock = "free" /\ tw = NoWrite
          /\ usent = 0 /\ upos = 0 /\ tunGot = <<>>
          /\ timerOn = TRUE /\ sockClosed = FALSE /\ tunHalfClosed = FALSE
-         /\ umain = "wait" /\ devSpin = FALSE /\ devBlocked = FALSE
+         /\ umain = "wait" /\ devSpin = FALSE /\ devBlocked = FALSE /\ devAlias = FALSE
+
+UIdle == /\ par = [t |-> <<>>, u |-> <<>>, cut |-> 0, how |-> "eof", chunk |-> 0, pace |-> "burst"]
+         /\ URest
 
 UInit == /\ BIdle /\ cw = [e \in Ends |-> TRUE]
          /\ \E t \in TSeqs : \E u \in USeqs : \E c \in (IF Cuts = "all" THEN 0..Len(Enc(t)) ELSE {Len(Enc(t))}) : \E h \in {"eof", "err"} :
             \E ch \in Chunks : \E pc \in Paces :
               par = [t |-> t, u |-> u, cut |-> c, how |-> h, chunk |-> ch, pace |-> pc]
-         /\ tpos = 0
-         /\ g2 = [pc |-> "read", buf |-> <<>>, processed |-> 0, pending |-> <<>>, rerr |-> "none", ended |-> FALSE]
-         /\ udpGot = <<>>
-         /\ g1 = [pc |-> "read", batch |-> <<>>, dg |-> 0, serr |-> "none"]
-         /\ usent = 0 /\ upos = 0 /\ tunGot = <<>>
-         /\ timerOn = TRUE /\ sockClosed = FALSE /\ tunHalfClosed = FALSE
-         /\ umain = "wait" /\ devSpin = FALSE /\ devBlocked = FALSE
+         /\ URest
          /\ Out(par @@ [whole |-> Whole(par.t, par.cut), len |-> Len(Enc(par.t))])
 
 BInit == BIdle /\ UIdle
@@ -249,7 +260,9 @@ BInit == BIdle /\ UIdle
 TunBroken == par.how = "err" /\ g2.ended
 
 \* ---- g2: tunnel -> UDP socket (bulk de-framing reader) ---------------------------------------
-\* flush(): write all pending datagrams to the UDP socket, in order
+\* pendingPackets reference readBuf (zero copy): what is written is what readBuf holds when the
+\* write happens
+Contents(pend, buf) == [i \in 1..Len(pend) |-> SubSeq(buf, pend[i][1] + 1, pend[i][1] + pend[i][2])]
 FlushOK == ~sockClosed
 
 \* if buffered < 256K { n, err := tunnelConn.Read(readBuf[buffered:]) ... }
@@ -279,51 +292,59 @@ G2Inner ==
        THEN LET plen == b[p + 1] * 256 + b[p + 2] IN
             IF plen = 0 \/ plen > 65535
               THEN \* illegal length: flush(); return
-                   /\ g2' = [g2 EXCEPT !.pc = "exit", !.pending = <<>>]
-                   /\ udpGot' = IF FlushOK THEN udpGot \o g2.pending ELSE udpGot
+                   g2' = [g2 EXCEPT !.pc = "flush", !.cont = "return"]
               ELSE IF Len(b) - p < 2 + plen
                 THEN \* incomplete record: wait for more data
-                     g2' = [g2 EXCEPT !.pc = "after"] /\ UNCHANGED udpGot
-                ELSE LET pend == Append(g2.pending, SubSeq(b, p + 3, p + 2 + plen)) IN
-                     IF Len(pend) >= BatchSize
-                       THEN IF FlushOK
-                              THEN /\ g2' = [g2 EXCEPT !.pending = <<>>, !.processed = p + 2 + plen]
-                                   /\ udpGot' = udpGot \o pend
-                              ELSE /\ g2' = [g2 EXCEPT !.rerr = "err", !.pc = "exit"]
-                                   /\ UNCHANGED udpGot
-                       ELSE /\ g2' = [g2 EXCEPT !.pending = pend, !.processed = p + 2 + plen]
-                            /\ UNCHANGED udpGot
-       ELSE g2' = [g2 EXCEPT !.pc = "after"] /\ UNCHANGED udpGot
-  /\ UNCHANGED <<tpos, sockClosed, devSpin, devBlocked>>
+                     g2' = [g2 EXCEPT !.pc = "after"]
+                ELSE LET pend == Append(g2.pending, <<p + 2, plen>>) IN
+                     g2' = [g2 EXCEPT !.pending = pend, !.processed = p + 2 + plen,
+                                      !.pc = IF Len(pend) >= BatchSize THEN "flush" ELSE "inner",
+                                      !.cont = IF Len(pend) >= BatchSize THEN "inner" ELSE @]
+       ELSE g2' = [g2 EXCEPT !.pc = "after"]
+  /\ UNCHANGED <<tpos, udpGot, sockClosed, devSpin, devBlocked>>
 
-\* after the inner loop: flush before compaction, compact, then go round
-\*   code as found  : always back to the top of the loop (re-reads a finished stream forever
-\*                    when a partial record is left: the `continue`/fall-through "dead loop")
-\*   patched (C12-1): `if tunnelEnded { break }`
+\* after the inner loop: "must flush before moving the buffer" (pending references readBuf)
 G2After ==
   /\ g2.pc = "after"
-  /\ LET doFlush == Len(g2.pending) > 0 /\ g2.processed > 0
-         rest    == SubSeq(g2.buf, g2.processed + 1, Len(g2.buf)) IN
-     IF doFlush /\ ~FlushOK
-       THEN /\ g2' = [g2 EXCEPT !.rerr = "err", !.pc = "exit"]
-            /\ UNCHANGED <<udpGot, devSpin>>
-       ELSE /\ udpGot' = IF doFlush THEN udpGot \o g2.pending ELSE udpGot
-            /\ IF g2.ended /\ ~DevSpin
-                 THEN /\ g2' = [g2 EXCEPT !.pending = IF doFlush THEN <<>> ELSE @, !.buf = rest, !.processed = 0, !.pc = "lastflush",
-                                           \* a left-over partial record is reported as io.ErrUnexpectedEOF
-                                           !.rerr = IF Len(rest) > 0 /\ @ = "none" THEN "trunc" ELSE @]
-                      /\ UNCHANGED devSpin
-                 ELSE /\ g2' = [g2 EXCEPT !.pending = IF doFlush THEN <<>> ELSE @, !.buf = rest, !.processed = 0, !.pc = "read"]
-                      /\ devSpin' = (devSpin \/ (g2.ended /\ Len(rest) > 0))
-  /\ UNCHANGED <<tpos, sockClosed, devBlocked>>
+  /\ g2' = IF Len(g2.pending) > 0 /\ g2.processed > 0
+             THEN [g2 EXCEPT !.pc = "flush", !.cont = "compact"]
+             ELSE [g2 EXCEPT !.pc = "compact"]
+  /\ UNCHANGED <<tpos, udpGot, sockClosed, devSpin, devBlocked>>
+
+\* flush(): the UDP socket write(s) of all pending datagrams, in order - a separate, possibly
+\* slow step.  cont says where flush() was called from.
+G2UdpWriteDone ==
+  /\ g2.pc = "flush"
+  /\ IF Len(g2.pending) = 0 \/ FlushOK
+       THEN /\ udpGot' = udpGot \o Contents(g2.pending, g2.buf)
+            /\ g2' = [g2 EXCEPT !.pending = <<>>, !.cont = "none",
+                                !.pc = CASE g2.cont = "inner" -> "inner" [] g2.cont = "compact" -> "compact" [] OTHER -> "exit"]
+       ELSE /\ UNCHANGED udpGot
+            /\ g2' = [g2 EXCEPT !.cont = "none", !.pc = "exit",
+                                !.rerr = IF g2.cont = "return" THEN @ ELSE IF g2.cont = "last" /\ @ # "none" THEN @ ELSE "err"]
+  /\ UNCHANGED <<tpos, sockClosed, devSpin, devBlocked>>
+
+\* compact readBuf, then go round
+\*   code as found  : always back to the top of the loop (re-reads a finished stream forever
+\*                    when a partial record is left)
+\*   patched (C12-1): `if tunnelEnded { ...; break }`
+G2Compact ==
+  /\ g2.pc = "compact"
+  /\ LET rest == SubSeq(g2.buf, g2.processed + 1, Len(g2.buf)) IN
+     IF g2.ended /\ ~DevSpin
+       THEN /\ g2' = [g2 EXCEPT !.buf = rest, !.processed = 0, !.pc = "lastflush",
+                                \* a left-over partial record is reported as io.ErrUnexpectedEOF
+                                !.rerr = IF Len(rest) > 0 /\ @ = "none" THEN "trunc" ELSE @]
+            /\ UNCHANGED devSpin
+       ELSE /\ g2' = [g2 EXCEPT !.buf = rest, !.processed = 0, !.pc = "read"]
+            /\ devSpin' = (devSpin \/ (g2.ended /\ Len(rest) > 0))
+  /\ UNCHANGED <<tpos, udpGot, sockClosed, devBlocked>>
 
 \* flush the remaining datagrams; break
 G2LastFlush ==
   /\ g2.pc = "lastflush"
-  /\ IF Len(g2.pending) > 0 /\ ~FlushOK
-       THEN g2' = [g2 EXCEPT !.rerr = IF @ = "none" THEN "err" ELSE @, !.pc = "exit"] /\ UNCHANGED udpGot
-       ELSE g2' = [g2 EXCEPT !.pending = <<>>, !.pc = "exit"] /\ udpGot' = udpGot \o g2.pending
-  /\ UNCHANGED <<tpos, sockClosed, devSpin, devBlocked>>
+  /\ g2' = [g2 EXCEPT !.pc = "flush", !.cont = "last"]
+  /\ UNCHANGED <<tpos, udpGot, sockClosed, devSpin, devBlocked>>
 
 \* goroutine exit
 \*   code as found  : nothing; g1 may stay blocked in udpConn.Read forever
@@ -338,83 +359,137 @@ G2Exit ==
             /\ UNCHANGED devBlocked
   /\ UNCHANGED <<tpos, udpGot, devSpin>>
 
-G2 == (G2Read \/ G2Inner \/ G2After \/ G2LastFlush \/ G2Exit)
-      /\ UNCHANGED <<par, g1, usent, upos, tunGot, timerOn, tunHalfClosed, umain>>
+G2 == (G2Read \/ G2Inner \/ G2After \/ G2UdpWriteDone \/ G2Compact \/ G2LastFlush \/ G2Exit)
+      /\ UNCHANGED <<par, g1, lock, tw, usent, upos, tunGot, timerOn, tunHalfClosed, umain, devAlias>>
 
 \* ---- g1: UDP socket -> tunnel (length-prefix batching writer) --------------------------------
-\* flushLocked(): one tunnelConn.Write of the whole batch
-\* n, err := udpConn.Read(readBuf)
+Batch == SubSeq(g1.mem, 1, g1.pos)
+\* copy(batchBuf[pos:], rec): bytes beyond pos+len keep whatever was there
+Put(mem, pos, rec) == [i \in 1..(IF Len(mem) > pos + Len(rec) THEN Len(mem) ELSE pos + Len(rec)) |->
+                         IF i > pos /\ i <= pos + Len(rec) THEN rec[i - pos] ELSE mem[i]]
+\* batchPos = 0 (stale bytes are only observable through an aliased slice)
+Reset(mem) == IF DevAliasFlush THEN mem ELSE <<>>
+
+\* n, err := udpConn.Read(readBuf)     (outside batchMu)
 G1Read ==
   /\ g1.pc = "read"
   /\ IF sockClosed
-       THEN g1' = [g1 EXCEPT !.pc = "final"] /\ UNCHANGED upos
+       THEN g1' = [g1 EXCEPT !.pc = "flock"] /\ UNCHANGED upos
        ELSE /\ upos < usent
             /\ upos' = upos + 1
-            /\ g1' = [g1 EXCEPT !.pc = "append", !.dg = upos + 1]
-  /\ UNCHANGED <<tunGot, timerOn, tunHalfClosed>>
-\* batchMu.Lock(); [flush if full]; append record; [flush if more than half full]; Unlock()
-G1Append ==
-  /\ g1.pc = "append"
-  /\ LET rec  == Rec(g1.dg, par.u[g1.dg])
-         full == Len(g1.batch) + Len(rec) > BatchBuf IN
-     IF full /\ Len(g1.batch) > 0 /\ TunBroken
-       THEN \* flushLocked failed: result.SendError = err; break
-            /\ g1' = [g1 EXCEPT !.serr = "err", !.pc = "closing"]
-            /\ UNCHANGED tunGot
-       ELSE LET flushed == IF full THEN tunGot \o g1.batch ELSE tunGot
-                b1      == (IF full THEN <<>> ELSE g1.batch) \o rec
-                half    == Len(b1) > BatchBuf \div 2 IN
-            IF half /\ ~TunBroken
-              THEN /\ tunGot' = flushed \o b1
-                   /\ g1' = [g1 EXCEPT !.batch = <<>>, !.pc = "read"]
-              ELSE /\ tunGot' = flushed
-                   /\ g1' = [g1 EXCEPT !.batch = b1, !.pc = "read"]     \* (flush error ignored here, as in the code)
-  /\ UNCHANGED <<upos, timerOn, tunHalfClosed>>
-\* read error: flush what is batched, record the error, leave the loop
-G1Final ==
-  /\ g1.pc = "final"
-  /\ IF Len(g1.batch) > 0 /\ TunBroken
-       THEN g1' = [g1 EXCEPT !.serr = "err", !.pc = "closing"] /\ UNCHANGED tunGot
-       ELSE /\ tunGot' = tunGot \o g1.batch
-            /\ g1' = [g1 EXCEPT !.batch = <<>>, !.pc = "closing"]
-  /\ UNCHANGED <<upos, timerOn, tunHalfClosed>>
+            /\ g1' = [g1 EXCEPT !.pc = "lock", !.dg = upos + 1]
+  /\ UNCHANGED <<lock, tw, tunGot, timerOn, tunHalfClosed, devAlias>>
+\* batchMu.Lock()
+G1Lock ==
+  /\ g1.pc \in {"lock", "flock"} /\ lock = "free"
+  /\ lock' = "g1"
+  /\ g1' = [g1 EXCEPT !.pc = IF @ = "lock" THEN "a1" ELSE "f1"]
+  /\ UNCHANGED <<upos, tw, tunGot, timerOn, tunHalfClosed, devAlias>>
+\* if batchPos+packetSize > batchBufSize { flushLocked() - error: SendError, break }
+G1A1 ==
+  /\ g1.pc = "a1"
+  /\ LET rec == Rec(g1.dg, par.u[g1.dg]) IN
+     IF g1.pos + Len(rec) > BatchBuf /\ g1.pos > 0
+       THEN /\ tw.by = "none"
+            /\ tw' = [by |-> "g1", n |-> g1.pos, cont |-> "a2"]
+            /\ g1' = [g1 EXCEPT !.pc = "write"]
+       ELSE /\ g1' = [g1 EXCEPT !.pc = "a2"] /\ UNCHANGED tw
+  /\ UNCHANGED <<upos, lock, tunGot, timerOn, tunHalfClosed, devAlias>>
+\* append [len][datagram]; if batchPos > batchBufSize/2 { flushLocked() - error ignored }
+G1A2 ==
+  /\ g1.pc = "a2"
+  /\ LET rec == Rec(g1.dg, par.u[g1.dg])
+         m   == Put(g1.mem, g1.pos, rec)
+         np  == g1.pos + Len(rec) IN
+     /\ devAlias' = (devAlias \/ tw.by = "timer")     \* writing into a buffer a tunnel Write is reading
+     /\ IF np > BatchBuf \div 2 /\ tw.by = "none"
+          THEN /\ tw' = [by |-> "g1", n |-> np, cont |-> "a3"]
+               /\ g1' = [g1 EXCEPT !.mem = m, !.pos = np, !.pc = "write"]
+          ELSE /\ g1' = [g1 EXCEPT !.mem = m, !.pos = np, !.pc = "a3"] /\ UNCHANGED tw
+  /\ UNCHANGED <<upos, lock, tunGot, timerOn, tunHalfClosed>>
+\* batchMu.Unlock()
+G1A3 ==
+  /\ g1.pc = "a3"
+  /\ lock' = "free"
+  /\ g1' = [g1 EXCEPT !.pc = "read"]
+  /\ UNCHANGED <<upos, tw, tunGot, timerOn, tunHalfClosed, devAlias>>
+\* read error: flushLocked(); record the error; Unlock; leave the loop
+G1F1 ==
+  /\ g1.pc = "f1"
+  /\ IF g1.pos > 0
+       THEN /\ tw.by = "none"
+            /\ tw' = [by |-> "g1", n |-> g1.pos, cont |-> "f2"]
+            /\ g1' = [g1 EXCEPT !.pc = "write"]
+       ELSE g1' = [g1 EXCEPT !.pc = "f2"] /\ UNCHANGED tw
+  /\ UNCHANGED <<upos, lock, tunGot, timerOn, tunHalfClosed, devAlias>>
+G1F2 ==
+  /\ g1.pc = "f2"
+  /\ lock' = "free"
+  /\ g1' = [g1 EXCEPT !.pc = "closing"]
+  /\ UNCHANGED <<upos, tw, tunGot, timerOn, tunHalfClosed, devAlias>>
 \* close(done); tryCloseWrite(tunnelConn)
 G1Closing ==
   /\ g1.pc = "closing"
   /\ timerOn' = FALSE
   /\ tunHalfClosed' = TRUE
   /\ g1' = [g1 EXCEPT !.pc = "done"]
-  /\ UNCHANGED <<upos, tunGot>>
-G1 == (G1Read \/ G1Append \/ G1Final \/ G1Closing)
+  /\ UNCHANGED <<upos, lock, tw, tunGot, devAlias>>
+G1 == (G1Read \/ G1Lock \/ G1A1 \/ G1A2 \/ G1A3 \/ G1F1 \/ G1F2 \/ G1Closing)
       /\ UNCHANGED <<par, tpos, g2, udpGot, usent, sockClosed, umain, devSpin, devBlocked>>
 
-\* the 20 ms ticker goroutine: batchMu.Lock(); flushLocked(); Unlock()  (error ignored)
-Timer ==
-  /\ timerOn /\ Len(g1.batch) > 0 /\ ~TunBroken
-  /\ g1.pc # "append"          \* the append step holds batchMu
-  /\ tunGot' = tunGot \o g1.batch
-  /\ g1' = [g1 EXCEPT !.batch = <<>>]
-  /\ UNCHANGED <<par, tpos, g2, udpGot, usent, upos, timerOn, sockClosed, tunHalfClosed, umain, devSpin, devBlocked>>
+\* the 20 ms ticker goroutine:  batchMu.Lock(); flushLocked(); batchMu.Unlock()  (error ignored)
+\*   the code            : the tunnel Write happens while batchMu is held
+\*   DevAliasFlush (m2)  : pending := batchBuf[:batchPos]; batchPos = 0; Unlock(); Write(pending)
+TimerTake ==
+  /\ timerOn /\ lock = "free" /\ tw.by = "none" /\ g1.pos > 0
+  /\ tw' = [by |-> "timer", n |-> g1.pos, cont |-> "none"]
+  /\ IF DevAliasFlush
+       THEN g1' = [g1 EXCEPT !.pos = 0] /\ UNCHANGED lock
+       ELSE lock' = "timer" /\ UNCHANGED g1
+  /\ UNCHANGED <<par, tpos, g2, udpGot, usent, upos, tunGot, timerOn, sockClosed, tunHalfClosed, umain, devSpin, devBlocked, devAlias>>
+
+\* the tunnel Write in progress completes (it may be arbitrarily slow: an independent action).
+\* The writer hands a slice of batchBuf to Write, so the bytes that reach the tunnel are the
+\* bytes batchBuf holds while the write takes them - here: at completion.
+TunnelWriteDone ==
+  /\ tw.by # "none"
+  /\ LET data == SubSeq(g1.mem, 1, tw.n)  ok == ~TunBroken IN
+     /\ tunGot' = IF ok THEN tunGot \o data ELSE tunGot
+     /\ IF tw.by = "timer"
+          THEN /\ lock' = IF DevAliasFlush THEN lock ELSE "free"
+               /\ g1' = IF ok /\ ~DevAliasFlush THEN [g1 EXCEPT !.pos = 0, !.mem = Reset(@)] ELSE g1
+          ELSE IF ok
+            THEN /\ g1' = [g1 EXCEPT !.pos = 0, !.mem = Reset(@), !.pc = tw.cont]
+                 /\ UNCHANGED lock
+            ELSE CASE tw.cont = "a2" -> /\ g1' = [g1 EXCEPT !.serr = "err", !.pc = "closing"]   \* SendError; Unlock; break
+                                        /\ lock' = "free"
+                   [] tw.cont = "a3" -> /\ g1' = [g1 EXCEPT !.pc = "a3"]                          \* error ignored, batch kept
+                                        /\ UNCHANGED lock
+                   [] OTHER          -> /\ g1' = [g1 EXCEPT !.serr = "err", !.pc = "f2"]
+                                        /\ UNCHANGED lock
+  /\ tw' = NoWrite
+  /\ UNCHANGED <<par, tpos, g2, udpGot, usent, upos, timerOn, sockClosed, tunHalfClosed, umain, devSpin, devBlocked, devAlias>>
 
 \* environment: the UDP peer sends its next datagram
 USend ==
   /\ umain = "wait" /\ usent < Len(par.u)
   /\ usent' = usent + 1
-  /\ UNCHANGED <<par, tpos, g2, udpGot, g1, upos, tunGot, timerOn, sockClosed, tunHalfClosed, umain, devSpin, devBlocked>>
+  /\ UNCHANGED <<par, tpos, g2, udpGot, g1, lock, tw, upos, tunGot, timerOn, sockClosed, tunHalfClosed, umain, devSpin, devBlocked, devAlias>>
 
 \* wg.Wait(); udpConn.Close(); tunnelConn.Close(); return
 UMain ==
   /\ umain = "wait" /\ g1.pc = "done" /\ g2.pc = "done"
   /\ umain' = "returned"
   /\ sockClosed' = TRUE
-  /\ UNCHANGED <<par, tpos, g2, udpGot, g1, usent, upos, tunGot, timerOn, tunHalfClosed, devSpin, devBlocked>>
+  /\ UNCHANGED <<par, tpos, g2, udpGot, g1, lock, tw, usent, upos, tunGot, timerOn, tunHalfClosed, devSpin, devBlocked, devAlias>>
 
 BFrozen == UNCHANGED bvars
-UNext == (G1 \/ G2 \/ Timer \/ USend \/ UMain) /\ BFrozen
+UNext == (G1 \/ G2 \/ TimerTake \/ TunnelWriteDone \/ USend \/ UMain) /\ BFrozen
 
 \* ---- properties -----------------------------------------------------------------------------
-UTypeOK == /\ g2.pc \in {"read", "inner", "after", "lastflush", "exit", "done"}
-           /\ g1.pc \in {"read", "append", "final", "closing", "done"}
+UTypeOK == /\ g2.pc \in {"read", "inner", "after", "flush", "compact", "lastflush", "exit", "done"}
+           /\ g1.pc \in {"read", "lock", "flock", "a1", "a2", "a3", "f1", "f2", "write", "closing", "done"}
+           /\ lock \in {"free", "g1", "timer"} /\ tw.by \in {"none", "g1", "timer"}
            /\ tpos \in 0..par.cut /\ upos \in 0..usent /\ usent \in 0..Len(par.u)
 \* datagram boundaries, contents and order are preserved; nothing beyond the cut is invented
 UDatagrams == /\ Len(udpGot) <= Whole(par.t, par.cut)
@@ -422,15 +497,24 @@ UDatagrams == /\ Len(udpGot) <= Whole(par.t, par.cut)
 \* every datagram whose record lies completely before the cut has been delivered when g2 ends
 UComplete == (g2.pc \in {"exit", "done"} /\ g2.rerr # "err") => Len(udpGot) = Whole(par.t, par.cut)
 UCompleteAny == g2.pc \in {"exit", "done"} => Len(udpGot) = Whole(par.t, par.cut)
-\* the tunnel carries whole records only, in order, for datagrams actually read from the socket
+\* the bytes handed to the tunnel are the encoded datagrams, whole records only, in order, for
+\* datagrams actually read from the socket - however slow the tunnel Write is
 UEncoded == \E k \in 0..upos : tunGot = EncUpTo(par.u, k)
 UFlushed == (g1.pc = "done" /\ g1.serr = "none" /\ ~TunBroken) => tunGot = EncUpTo(par.u, upos)
+\* batchMu: a tunnel Write of the ticker excludes the writer goroutine from the batch buffer
+UMutex == (tw.by = "timer" /\ ~DevAliasFlush) => (lock = "timer" /\ g1.pc \notin {"a1", "a2", "a3", "f1", "f2", "write"})
 \* readBuf bookkeeping of the de-framer
 UBuf == /\ g2.processed <= Len(g2.buf)
         /\ Len(g2.buf) <= par.cut
+        /\ g1.pos <= BatchBuf
 UDelivMonotone == [][Len(udpGot') >= Len(udpGot) /\ Len(tunGot') >= Len(tunGot)]_uvars
 
-UFair == WF_vars(G1 /\ BFrozen) /\ WF_vars(G2 /\ BFrozen) /\ WF_vars(Timer /\ BFrozen) /\ WF_vars(UMain /\ BFrozen)
+\* weak fairness for every goroutine and for the completion of a started tunnel Write; strong
+\* fairness for batchMu.Lock() of g1: sync.Mutex is starvation-free, the ticker (which re-takes
+\* the lock every 20 ms and, on a failed tunnel, never empties the batch) cannot lock g1 out for ever
+UFair == /\ WF_vars(G1 /\ BFrozen) /\ WF_vars(G2 /\ BFrozen) /\ WF_vars(TimerTake /\ BFrozen)
+         /\ WF_vars(TunnelWriteDone /\ BFrozen) /\ WF_vars(UMain /\ BFrozen)
+         /\ SF_vars(G1Lock /\ UNCHANGED <<par, tpos, g2, udpGot, usent, sockClosed, umain, devSpin, devBlocked>> /\ BFrozen)
 \* liveness: the relay returns (the tunnel stream always reaches its cut: EOF or failure)
 UTermination == <>(umain = "returned")
 \* the same, excusing exactly the two known deviations
